@@ -62,9 +62,48 @@ func genSpacedC12(t *rapid.T) CaseC12 {
 	return c
 }
 
+// genOverlapC12: three to five pairs whose new paths are drawn from a five-letter alphabet, so that they share
+// prefixes and segment names at the same depth under different roots, over sources that are maps holding maps.
+func genOverlapC12(t *rapid.T) CaseC12 {
+	names := []string{"a", "b", "x", "c", "d"}
+	leaf := func() interface{} { return instScalar(t) }
+	inner := func() map[string]interface{} {
+		m := map[string]interface{}{}
+		for _, k := range names {
+			switch rapid.IntRange(0, 3).Draw(t, "ik") {
+			case 0:
+				m[k] = leaf()
+			case 1:
+				m[k] = map[string]interface{}{rapid.SampledFrom(names).Draw(t, "ik2"): leaf(), "y": leaf()}
+			}
+		}
+		if len(m) == 0 {
+			m["x"] = map[string]interface{}{"y": leaf()}
+		}
+		return m
+	}
+	c := CaseC12{Map: map[string]interface{}{"s": inner(), "v": leaf(), "w": leaf(), "u": inner()}}
+	np := rapid.IntRange(3, 5).Draw(t, "npairs")
+	for i := 0; i < np; i++ {
+		p := PairC12{Old: []Step{{rapid.SampledFrom([]string{"s", "v", "w", "u", "s", "u"}).Draw(t, "old"), -1}}}
+		if rapid.IntRange(0, 3).Draw(t, "olddeep") == 0 {
+			p.Old = append(p.Old, Step{rapid.SampledFrom(names).Draw(t, "old2"), -1})
+		}
+		nlen := rapid.IntRange(1, 3).Draw(t, "nlen")
+		for j := 0; j < nlen; j++ {
+			p.New = append(p.New, rapid.SampledFrom(names).Draw(t, "nkey"))
+		}
+		c.Pairs = append(c.Pairs, p)
+	}
+	return c
+}
+
 func genC12(t *rapid.T) CaseC12 {
 	if rapid.IntRange(0, 7).Draw(t, "spaced") == 0 {
 		return genSpacedC12(t)
+	}
+	if rapid.IntRange(0, 5).Draw(t, "overlap") == 0 {
+		return genOverlapC12(t)
 	}
 	sh := genRootShape(t, false)
 	c := CaseC12{Map: instantiate(t, sh).(map[string]interface{})}
